@@ -197,7 +197,8 @@ func init() {
 			"Go keywords / predeclared names as identifiers are not spellable over the alphabet and are unspecified",
 		},
 		BudgetQuick: 280 * time.Second, BudgetThorough: 1700 * time.Second,
-		Prepare: PrepareUniverse,
+		Prepare:     PrepareUniverse,
+		CaseTimeout: 900 * time.Second,
 		Run: func(w *W) {
 			base, fields, err := w.TC(false).ContainerMethods()
 			if err != nil {
